@@ -19,19 +19,24 @@ def lstr(s):
 # the MiniPy variable that stands for its value.  Set per block by `abstracting(...)`; the theorem about the block
 # quantifies over the values of these variables.  Purely textual: nothing is evaluated.
 ABSTRACT = {}
+# Names (or abstracted expressions) of the block that hold text: `==` / `!=` on them is string comparison.
+STR_VARS = set()
+# When set, `return <expr>` of the block is translated as `@ret = "<source text of expr>"` (a routing decision).
+RETURN_TAGS = False
 
 
 class abstracting(object):
-    def __init__(self, table):
-        self.table = table
+    def __init__(self, table, str_vars=(), return_tags=False):
+        self.table, self.str_vars, self.return_tags = table, set(str_vars), return_tags
 
     def __enter__(self):
-        global ABSTRACT
-        self.old, ABSTRACT = ABSTRACT, self.table
+        global ABSTRACT, STR_VARS, RETURN_TAGS
+        self.old = (ABSTRACT, STR_VARS, RETURN_TAGS)
+        ABSTRACT, STR_VARS, RETURN_TAGS = self.table, self.str_vars, self.return_tags
 
     def __exit__(self, *a):
-        global ABSTRACT
-        ABSTRACT = self.old
+        global ABSTRACT, STR_VARS, RETURN_TAGS
+        ABSTRACT, STR_VARS, RETURN_TAGS = self.old
 
 
 def codes(text):
@@ -39,6 +44,10 @@ def codes(text):
 
 
 def is_str(e):
+    return (isinstance(e, ast.Constant) and isinstance(e.value, str)) or (STR_VARS and ast.unparse(e) in STR_VARS)
+
+
+def is_strconst(e):
     return isinstance(e, ast.Constant) and isinstance(e.value, str)
 
 
@@ -70,7 +79,7 @@ def expr(e):
             return "(.var %s)" % lstr("sys.byteorder")      # the host byte order is an input of the block
         return "(.attr %s %s)" % (expr(e.value), lstr(e.attr))
     if isinstance(e, ast.BinOp):
-        if is_str(e.left):
+        if is_strconst(e.left):
             raise Untranslatable("string formatting with %")
         op = {ast.Add: "add", ast.Sub: "sub", ast.Mult: "mul", ast.BitAnd: "band", ast.BitOr: "bor",
               ast.RShift: "shr", ast.LShift: "shl", ast.Mod: "mod", ast.FloorDiv: "floordiv"}.get(type(e.op))
@@ -129,20 +138,32 @@ def expr(e):
         if f == "bool" and len(a) == 1:
             return "(.boolOf %s)" % expr(a[0])
     if isinstance(e, ast.Call) and isinstance(e.func, ast.Attribute) and e.func.attr == "format" \
-            and is_str(e.func.value) and len(e.args) == 1 and not e.keywords:
+            and is_strconst(e.func.value) and len(e.args) == 1 and not e.keywords:
         m = re.fullmatch(r"\{0:0(\d+)b\}", e.func.value.value)
         if not m:
             raise Untranslatable("format string %r" % e.func.value.value)
         return "(.fmtBin %d %s)" % (int(m.group(1)), expr(e.args[0]))
+    if isinstance(e, ast.Call) and isinstance(e.func, ast.Attribute) and e.func.attr == "startswith" \
+            and len(e.args) == 1 and not e.keywords:
+        return "(.startswith %s %s)" % (expr(e.func.value), expr(e.args[0]))
+    if isinstance(e, ast.Call) and ast.unparse(e.func) == "os.path.join" and len(e.args) == 2 and not e.keywords \
+            and isinstance(e.args[1], ast.Constant) and e.args[1].value == "":
+        return "(.joinEmpty %s)" % expr(e.args[0])
     if isinstance(e, ast.Subscript) and isinstance(e.slice, ast.Slice):
         sl = e.slice
+        if sl.step is None and sl.lower is None and sl.upper is not None and is_intconst(sl.upper) \
+                and sl.upper.value >= 0:
+            return "(.takeN %s %d)" % (expr(e.value), sl.upper.value)          # x[:n]
+        if sl.step is None and sl.upper is None and sl.lower is not None and is_intconst(sl.lower) \
+                and sl.lower.value >= 0:
+            return "(.dropN %s %d)" % (expr(e.value), sl.lower.value)          # x[n:]
         if sl.lower is None and sl.upper is None and isinstance(sl.step, ast.UnaryOp) \
                 and isinstance(sl.step.op, ast.USub) and is_intconst(sl.step.operand) and sl.step.operand.value == 1:
             return "(.rev %s)" % expr(e.value)                   # x[::-1]
         raise Untranslatable("slice subscript")
     if isinstance(e, ast.Subscript) and isinstance(e.value, ast.Dict):
         d = e.value
-        if d.keys and all(k is not None and is_str(k) for k in d.keys) and all(is_str(v) for v in d.values):
+        if d.keys and all(k is not None and is_strconst(k) for k in d.keys) and all(is_strconst(v) for v in d.values):
             tbl = ", ".join("(%s, %s)" % (codes(k.value), codes(v.value)) for k, v in zip(d.keys, d.values))
             return "(.strMap [%s] %s)" % (tbl, expr(e.slice))
         raise Untranslatable("dict literal")
@@ -155,19 +176,37 @@ def expr(e):
 def stmts(body, sink, tail=False):
     """`tail`: the block is the last thing its function does, so a `return` at its end may be translated
     (as assignments to `@ret` / `@ret0…`); a `return` anywhere else is outside the fragment."""
+    body = [s for s in body if not (isinstance(s, ast.Expr) and is_strconst(s.value))]      # docstrings
+    if tail:
+        # `if c: <body that always returns>` followed by more statements is `if c: body else: <the rest>`
+        for i, s in enumerate(body[:-1]):
+            if isinstance(s, ast.If) and always_returns(s.body) and not always_returns(s.orelse):
+                rest = list(s.orelse) + body[i + 1:]
+                head = stmts(body[:i], sink, False) if i else None
+                t = "(.ite %s %s %s)" % (expr(s.test), stmts(s.body, sink, True), stmts(rest, sink, True))
+                return t if head is None else "(.seq %s %s)" % (head, t)
     out = None
     for i, s in reversed(list(enumerate(body))):
-        if isinstance(s, ast.Expr) and is_str(s.value):
-            continue                                               # docstring
         t = stmt(s, sink, tail and i == len(body) - 1)
         out = t if out is None else "(.seq %s %s)" % (t, out)
     return out or ".skip"
+
+
+def always_returns(body):
+    if not body:
+        return False
+    last = body[-1]
+    if isinstance(last, (ast.Return, ast.Raise)):
+        return True
+    return isinstance(last, ast.If) and always_returns(last.body) and always_returns(last.orelse)
 
 
 def stmt(s, sink, tail=False):
     if isinstance(s, ast.Return):
         if not tail:
             raise Untranslatable("return that is not in tail position")
+        if RETURN_TAGS:
+            return "(.assign %s (.strc %s))" % (lstr("@ret"), codes(ast.unparse(s.value) if s.value else "None"))
         if s.value is None:
             return "(.assign %s .none)" % lstr("@ret")
         if isinstance(s.value, ast.Tuple):
@@ -394,7 +433,87 @@ def generate_dods(repo):
 
 
 
-GENERATORS = [("SliceSrc.lean", generate), ("DapSrc.lean", generate_dap), ("DodsSrc.lean", generate_dods)]
+def drop_statements(body, texts):
+    """remove, anywhere in `body`, the statements whose source text is listed; each must occur exactly once"""
+    seen = []
+
+    class T(ast.NodeTransformer):
+        def generic_visit(self, node):
+            super().generic_visit(node)
+            for field in ("body", "orelse"):
+                lst = getattr(node, field, None)
+                if isinstance(lst, list):
+                    keep = []
+                    for x in lst:
+                        if isinstance(x, ast.stmt) and ast.unparse(x) in texts:
+                            seen.append(ast.unparse(x))
+                        else:
+                            keep.append(x)
+                    setattr(node, field, keep)
+            return node
+
+    holder = ast.Module(body=list(body), type_ignores=[])
+    T().visit(holder)
+    if sorted(seen) != sorted(texts):
+        raise Untranslatable("statements to set aside not found exactly once: %s"
+                             % sorted(set(texts) ^ set(seen)))
+    return holder.body
+
+
+def generate_app(repo):
+    """wsgi/app.py DapServer.__call__: containment test and routing order (C16)"""
+    app = parse_src(repo, "wsgi", "app.py")
+
+    def call_body():
+        fn = find_method(app, "DapServer", "__call__")
+        body = [x for x in fn.body if not (isinstance(x, ast.Expr) and is_strconst(x.value))]
+        first = body[0]
+        if not (isinstance(first, ast.Assign) and isinstance(first.targets[0], ast.Name)
+                and first.targets[0].id == "path"):
+            raise Untranslatable("expected `path = …` first")
+        # `path = os.path.abspath(os.path.join(self.path, *req.path_info.split("/")))` is the input;
+        # the statements set aside below do not take part in the routing decision
+        rest = drop_statements(body[1:], [
+            "base, ext = os.path.splitext(path)",
+            "req.environ['pydap.jinja2.environment'] = self.env",
+            "app = ServerSideFunctions(get_handler(base, self.handlers))"])
+        table = {"self.path": "self.path",
+                 "os.path.exists(path)": "@exists", "os.path.isdir(path)": "@isdir",
+                 "os.path.basename(path)": "@basename",
+                 "os.path.isdir(os.path.dirname(path))": "@isdir_parent",
+                 "os.path.isfile(base)": "@isfile_base"}
+        with abstracting(table, str_vars={"path", "self.path", "os.path.basename(path)"}, return_tags=True):
+            return stmts(rest, None, tail=True)
+
+    parts = [HEADER,
+             block("src_dapserver_call", "wsgi/app.py DapServer.__call__ after `path = …`: the containment test and the "
+                   "routing order; `return e` is `@ret = \"<source text of e>\"`; file-system tests are input "
+                   "variables (`@exists`, `@isdir`, `@basename`, `@isdir_parent`, `@isfile_base`)", call_body),
+             "end Pydap.Gen\n"]
+    return "\n".join(parts)
+
+
+def generate_ce(repo):
+    """parsers/__init__.py parse_ce: the protocol / `dap4.ce=` prefix guard (C15's `parseCE`)"""
+    par = parse_src(repo, "parsers", "__init__.py")
+
+    def guard():
+        fn = find_function(par, "parse_ce")
+        body = [x for x in fn.body if not (isinstance(x, ast.Expr) and is_strconst(x.value))]
+        first = body[0]
+        if not (isinstance(first, ast.If) and ast.unparse(first.test) == "protocol == 'dap2'"):
+            raise Untranslatable("expected `if protocol == \"dap2\":` first")
+        return stmt(first, None)
+
+    parts = [HEADER,
+             block("src_parse_ce_guard", "parsers/__init__.py parse_ce: the first statement, `if protocol == \"dap2\": … "
+                   "elif protocol == \"dap4\": …` (separator key, `dap4.ce=` prefix test, prefix removal)", guard),
+             "end Pydap.Gen\n"]
+    return "\n".join(parts)
+
+
+GENERATORS = [("SliceSrc.lean", generate), ("DapSrc.lean", generate_dap), ("DodsSrc.lean", generate_dods),
+              ("AppSrc.lean", generate_app), ("CeSrc.lean", generate_ce)]
 
 
 def write(repo, verif):
